@@ -19,13 +19,20 @@ Section CW.
 Variable hash : algo -> bytes -> bytes.
 Hypothesis HL : HashLen hash.
 
-Record wspec := mkWs { ws_a : algo; ws_key : bytes; ws_data : bytes; ws_now : N }.
+(* a thread: a keyed one-shot writer, or (ws_rm) a tombstone remover of a key *)
+Record wspec := mkWs { ws_rm : bool; ws_a : algo; ws_key : bytes; ws_data : bytes; ws_now : N }.
 
-Definition wprog (x : wspec) : prog (res integrity) := write hash Sync (ws_a x) (ws_key x) (ws_data x) (ws_now x).
+Definition wprog (x : wspec) : prog (res integrity) :=
+  if ws_rm x then insert hash (ws_key x) wopts0 (ws_now x)        (* remove = the index insert of a tombstone *)
+  else write hash Sync (ws_a x) (ws_key x) (ws_data x) (ws_now x).
 Definition x_sri (x : wspec) : integrity := sri_of hash (ws_a x) (ws_data x).
 Definition x_cp (x : wspec) : path := cpath hash (ws_a x) (ws_data x).
 Definition x_o' (x : wspec) : wopts := mkWopts (Some (ws_a x)) (Some (x_sri x)) (Some (lenN (ws_data x))) None None None.
-Definition x_hop (x : wspec) : hop := HIns (ws_key x) (x_o' x) (ws_now x).
+Definition x_hop (x : wspec) : hop := HIns (ws_key x) (if ws_rm x then wopts0 else x_o' x) (ws_now x).
+Definition x_res (x : wspec) : integrity := if ws_rm x then deadbeef else x_sri x.
+(* what a thread that is past its content phase relies on: its content is stored (writers only) *)
+Definition content_fact (x : wspec) (f : fs) : Prop :=
+  ws_rm x = false -> lookup f (InCache (x_cp x)) = Some (File (ws_data x)).
 Definition x_tmp (n : name) : loc := InCache (tmp_dir ++ [n]).
 
 (* commit with the content path already computed *)
@@ -60,7 +67,7 @@ Lemma close_writer_close' w :
 Proof. unfold close_writer, close'. rewrite (content_path_computed hash _ _ HL). reflexivity. Qed.
 
 (* the stages of one writer, as explicit program terms *)
-Definition A0 (x : wspec) : prog (res integrity) := wprog x.
+Definition A0 (x : wspec) : prog (res integrity) := write hash Sync (ws_a x) (ws_key x) (ws_data x) (ws_now x).
 Definition A1 (x : wspec) : prog (res integrity) := nxt (A0 x) ROk.
 Definition A2 (x : wspec) (n : name) : prog (res integrity) := nxt (A1 x) (RName n).
 
@@ -77,12 +84,12 @@ Definition B0 (x : wspec) (n : name) : prog (res integrity) := commit hash (x_w 
 
 (* after CreateTmp: either straight to commit (empty data) or one append to the temp file, then commit *)
 Lemma A2_empty x n : ws_data x = [] -> A2 x n = B0 x n.
-Proof. intros E. unfold A2, A1, A0, wprog, write, oneshot, B0, x_w. rewrite E. reflexivity. Qed.
+Proof. intros E. unfold A2, A1, A0, write, oneshot, B0, x_w. rewrite E. reflexivity. Qed.
 
 Lemma A2_data x n : ws_data x <> [] ->
   head (A2 x n) = Some (WriteAppend (x_tmp n) (ws_data x)) /\ nxt (A2 x n) (RNum (lenN (ws_data x))) = B0 x n.
 Proof.
-  intros Hne. unfold A2, A1, A0, wprog, write, oneshot, B0, x_w. destruct (ws_data x) as [|b d] eqn:E; [contradiction|].
+  intros Hne. unfold A2, A1, A0, write, oneshot, B0, x_w. destruct (ws_data x) as [|b d] eqn:E; [contradiction|].
   split; reflexivity.
 Qed.
 
@@ -91,9 +98,9 @@ Definition B0' (x : wspec) (n : name) : prog (res integrity) :=
   rbind (close' (x_cp x) (x_w x n))
         (fun wsri => insert hash (ws_key x) (mkWopts (Some (ws_a x)) (Some wsri) (Some (lenN (ws_data x))) None None None) (ws_now x)).
 Definition B1 (x : wspec) (n : name) : prog (res integrity) := nxt (B0' x n) ROk.
-Definition I0 (x : wspec) : prog (res integrity) := seq_prog (hop_steps hash (x_hop x)) (x_sri x).
-Definition I1 (x : wspec) : prog (res integrity) := seq_prog (tl (hop_steps hash (x_hop x))) (x_sri x).
-Definition I2 (x : wspec) : prog (res integrity) := seq_prog (tl (tl (hop_steps hash (x_hop x)))) (x_sri x).
+Definition I0 (x : wspec) : prog (res integrity) := seq_prog (hop_steps hash (x_hop x)) (x_res x).
+Definition I1 (x : wspec) : prog (res integrity) := seq_prog (tl (hop_steps hash (x_hop x))) (x_res x).
+Definition I2 (x : wspec) : prog (res integrity) := seq_prog (tl (tl (hop_steps hash (x_hop x)))) (x_res x).
 
 Lemma B0_B0' x n : B0 x n = B0' x n.
 Proof. unfold B0, B0', commit. rewrite close_writer_close'. reflexivity. Qed.
@@ -101,36 +108,40 @@ Lemma B0'_head x n : head (B0' x n) = Some (MkdirAll (parent (x_cp x))).
 Proof. reflexivity. Qed.
 Lemma B1_head x n : head (B1 x n) = Some (Rename (x_tmp n) (InCache (x_cp x))).
 Proof. reflexivity. Qed.
-Lemma B1_next x n : nxt (B1 x n) ROk = I0 x.
-Proof. reflexivity. Qed.
+Lemma B1_next x n : ws_rm x = false -> nxt (B1 x n) ROk = I0 x.
+Proof. intros E. unfold I0, x_hop, x_res. rewrite E. reflexivity. Qed.
+Lemma wprog_writer x : ws_rm x = false -> wprog x = A0 x.
+Proof. intros E. unfold wprog. rewrite E. reflexivity. Qed.
+Lemma wprog_remover x : ws_rm x = true -> wprog x = I0 x.
+Proof. intros E. unfold wprog, I0, x_hop, x_res. rewrite E. reflexivity. Qed.
 
 (* ---------- stages ---------- *)
 Inductive wst (x : wspec) (f : fs) : prog (res integrity) -> bool -> option name -> Prop :=
-| W0 : wst x f (A0 x) false None
-| W1 : is_dir f tmp_dir = true -> wst x f (A1 x) false None
-| W2 n : lookup f (x_tmp n) = Some (File []) -> ws_data x <> [] -> wst x f (A2 x n) false (Some n)
-| W3 n : lookup f (x_tmp n) = Some (File (ws_data x)) -> wst x f (B0' x n) false (Some n)
-| W4 n : lookup f (x_tmp n) = Some (File (ws_data x)) -> is_dir f (parent (x_cp x)) = true -> wst x f (B1 x n) false (Some n)
-| W5 : lookup f (InCache (x_cp x)) = Some (File (ws_data x)) -> wst x f (I0 x) false None
-| W6 : lookup f (InCache (x_cp x)) = Some (File (ws_data x)) -> is_dir f (parent (hb hash (x_hop x))) = true -> wst x f (I1 x) false None
-| W7 d : lookup f (InCache (x_cp x)) = Some (File (ws_data x)) -> lookup f (InCache (hb hash (x_hop x))) = Some (File d) -> wst x f (I2 x) false None
-| W8 : lookup f (InCache (x_cp x)) = Some (File (ws_data x)) -> wst x f (Ret (Ok (x_sri x))) true None.
+| W0 : ws_rm x = false -> wst x f (A0 x) false None
+| W1 : ws_rm x = false -> is_dir f tmp_dir = true -> wst x f (A1 x) false None
+| W2 n : ws_rm x = false -> lookup f (x_tmp n) = Some (File []) -> ws_data x <> [] -> wst x f (A2 x n) false (Some n)
+| W3 n : ws_rm x = false -> lookup f (x_tmp n) = Some (File (ws_data x)) -> wst x f (B0' x n) false (Some n)
+| W4 n : ws_rm x = false -> lookup f (x_tmp n) = Some (File (ws_data x)) -> is_dir f (parent (x_cp x)) = true -> wst x f (B1 x n) false (Some n)
+| W5 : content_fact x f -> wst x f (I0 x) false None
+| W6 : content_fact x f -> is_dir f (parent (hb hash (x_hop x))) = true -> wst x f (I1 x) false None
+| W7 d : content_fact x f -> lookup f (InCache (hb hash (x_hop x))) = Some (File d) -> wst x f (I2 x) false None
+| W8 : content_fact x f -> wst x f (Ret (Ok (x_res x))) true None.
 
 (* what a thread needs of the others: nothing it relies on is undone *)
 Definition stable (f g : fs) (x : wspec) (own : option name) : Prop :=
   (forall p, is_dir f p = true -> is_dir g p = true) /\
   (forall b, bshape b -> forall d, lookup f (InCache b) = Some (File d) -> exists d', lookup g (InCache b) = Some (File d')) /\
-  (lookup f (InCache (x_cp x)) = Some (File (ws_data x)) -> lookup g (InCache (x_cp x)) = Some (File (ws_data x))) /\
+  (content_fact x f -> content_fact x g) /\
   (forall n, own = Some n -> lookup g (x_tmp n) = lookup f (x_tmp n)).
 
 Lemma wst_stable x f g p fl own : stable f g x own -> wst x f p fl own -> wst x g p fl own.
 Proof.
-  intros [Hd [Hb [Hc Ho]]] Hs. destruct Hs as [|H|n H Hne|n H|n H H2|H|H H2|d H H2|H].
-  - constructor.
-  - constructor. apply Hd. exact H.
-  - constructor; [rewrite (Ho n eq_refl); exact H|exact Hne].
-  - constructor. rewrite (Ho n eq_refl). exact H.
-  - constructor; [rewrite (Ho n eq_refl); exact H|apply Hd; exact H2].
+  intros [Hd [Hb [Hc Ho]]] Hs. destruct Hs as [Hw|Hw H|n Hw H Hne|n Hw H|n Hw H H2|H|H H2|d H H2|H].
+  - constructor. exact Hw.
+  - constructor; [exact Hw|apply Hd; exact H].
+  - constructor; [exact Hw|rewrite (Ho n eq_refl); exact H|exact Hne].
+  - constructor; [exact Hw|rewrite (Ho n eq_refl); exact H].
+  - constructor; [exact Hw|rewrite (Ho n eq_refl); exact H|apply Hd; exact H2].
   - constructor. apply Hc. exact H.
   - constructor; [apply Hc; exact H|apply Hd; exact H2].
   - destruct (Hb _ (hb_shape hash (x_hop x)) d H2) as [d' Hd']. exact (W7 x g d' (Hc H) Hd').
@@ -145,7 +156,7 @@ Lemma stable_agree T f g x own :
   agree_except T f g ->
   (forall p, is_dir f p = true -> p <> [] -> ~ In (InCache p) T) ->
   (forall b, bshape b -> In (InCache b) T -> exists d', lookup g (InCache b) = Some (File d')) ->
-  (In (InCache (x_cp x)) T -> lookup f (InCache (x_cp x)) = Some (File (ws_data x)) -> lookup g (InCache (x_cp x)) = Some (File (ws_data x))) ->
+  (ws_rm x = false -> In (InCache (x_cp x)) T -> lookup f (InCache (x_cp x)) = Some (File (ws_data x)) -> lookup g (InCache (x_cp x)) = Some (File (ws_data x))) ->
   (forall n, own = Some n -> ~ In (x_tmp n) T /\ lookup f (x_tmp n) <> None) ->
   stable f g x own.
 Proof.
@@ -155,8 +166,8 @@ Proof.
     rewrite (Ha (InCache (y :: p))); [rewrite E; reflexivity|apply Hd; [unfold is_dir; rewrite E; reflexivity|discriminate]|rewrite E; discriminate].
   - intros b Hbs d Hl. destruct (in_dec loc_eq_dec (InCache b) T) as [Hin|Hnin]; [exact (Hb b Hbs Hin)|].
     exists d. rewrite (Ha _ Hnin); [exact Hl|rewrite Hl; discriminate].
-  - intros Hl. destruct (in_dec loc_eq_dec (InCache (x_cp x)) T) as [Hin|Hnin]; [exact (Hc Hin Hl)|].
-    rewrite (Ha _ Hnin); [exact Hl|rewrite Hl; discriminate].
+  - intros Hcf Hw. specialize (Hcf Hw). destruct (in_dec loc_eq_dec (InCache (x_cp x)) T) as [Hin|Hnin]; [exact (Hc Hw Hin Hcf)|].
+    rewrite (Ha _ Hnin); [exact Hcf|rewrite Hcf; discriminate].
   - intros n Hn. destruct (Ho n Hn) as [H1 H2]. apply Ha; assumption.
 Qed.
 
@@ -261,9 +272,9 @@ Lemma agree_exec_append f l r : agree_except [l] f (snd (exec (Append l r) f)).
 Proof. unfold exec. destruct (lookup f l) as [[d| |t]|]; cbn [snd]; try (intros l' _ _; reflexivity). apply agree_update. Qed.
 
 (* ---------- the pool invariant ---------- *)
-Definition dw : wspec := mkWs Sha256 [] [] 0.
+Definition dw : wspec := mkWs false Sha256 [] [] 0.
 Definition coll_free (ws : list wspec) : Prop :=
-  forall x y, In x ws -> In y ws -> x_cp x = x_cp y -> ws_data x = ws_data y.
+  forall x y, In x ws -> In y ws -> ws_rm x = false -> ws_rm y = false -> x_cp x = x_cp y -> ws_data x = ws_data y.
 
 Definition PInvW (ws : list wspec) (f0 : fs) (s : pool (res integrity) * fs) : Prop :=
   let '(pl, f) := s in
@@ -322,7 +333,9 @@ Proof.
   split; [constructor|]. split; [intros i []|]. split; [apply map_length|]. split; [apply repeat_length|].
   split; [|split; [|split; [exact Hi|split; [exact Hc|split; [exact Ht|]]]]].
   - intros i Hi'. cbn [member existsb]. rewrite (nth_indep _ (Ret Stuck) (wprog dw)) by (rewrite map_length; exact Hi').
-    rewrite (map_nth wprog ws dw i). rewrite nth_repeat. constructor.
+    rewrite (map_nth wprog ws dw i). rewrite nth_repeat. destruct (ws_rm (nth i ws dw)) eqn:Ek.
+    + rewrite (wprog_remover _ Ek). apply W5. intros H. congruence.
+    + rewrite (wprog_writer _ Ek). apply W0. exact Ek.
   - intros i j a b _ H. rewrite nth_repeat in H. discriminate.
   - intros b _. cbn [hops_of map hist_records]. unfold bucket_of. cbn. rewrite app_nil_r. reflexivity.
 Qed.
@@ -369,13 +382,13 @@ Proof.
   assert (forall j b, nth j owns None = Some b -> (j < List.length ws)%nat) as Hownin.
   { intros j b Hjb. destruct (Nat.lt_ge_cases j (List.length ws)) as [H|H]; [exact H|]. rewrite (Hownout j H) in Hjb. discriminate. }
   remember (Do c k) as p0 eqn:Ep0. remember (member i0 done) as fl eqn:Efl. remember (nth i0 owns None) as own0 eqn:Eown.
-  destruct Hs0 as [|Hd|n Hl Hne|n Hl|n Hl Hd|Hcp|Hcp Hd|d Hcp Hd|Hcp].
+  destruct Hs0 as [Hw|Hw Hd|n Hw Hl Hne|n Hw Hl|n Hw Hl Hd|Hcp|Hcp Hd|d Hcp Hd|Hcp].
   - (* S1: mkdir -p tmp *)
     destruct (do_eq c k (A0 x) _ (eq_sym Ep0) (A0_head x)) as [-> Hk].
     destruct (s_mktmp f Ht) as [Hr [Hdir [Hfr Hag]]].
     rewrite (Hk _), Hr. change (nxt (A0 x) ROk) with (A1 x).
     apply (Hre (A1 x) _ done None); try assumption; try reflexivity.
-    + rewrite <- Efl. apply W1. exact Hdir.
+    + rewrite <- Efl. apply W1; [exact Hw|exact Hdir].
     + intros i Hi' Hne. apply (stable_agree []); [exact Hag| | | |]; try (intros; contradiction).
       * intros p _ _ [].
       * intros n Hn. split; [intros []|apply (Hownex i n Hi' Hn)].
@@ -404,12 +417,12 @@ Proof.
     + (* no data: the commit starts right away *)
       rewrite (A2_empty x n Edata), B0_B0'.
       apply (Hre (B0' x n) _ done (Some n)); try assumption; try reflexivity.
-      * rewrite <- Efl. apply W3. rewrite Edata. apply lookup_update_eq.
+      * rewrite <- Efl. apply W3; [exact Hw|rewrite Edata; apply lookup_update_eq].
       * intros i Hi' Hne. apply Hstab. intros m Hm. apply (Hownex i m Hi' Hm).
       * intros j a b Hj Ha Hjb. inversion Ha; subst a. intros <-. apply (Hownex j n (Hownin j n Hjb) Hjb). exact Hfresh.
       * intros b Hbs. rewrite (HB2 b Hbs). apply Hb. exact Hbs.
     + apply (Hre (A2 x n) _ done (Some n)); try assumption; try reflexivity.
-      * rewrite <- Efl. apply W2; [apply lookup_update_eq|rewrite Edata; discriminate].
+      * rewrite <- Efl. apply W2; [exact Hw|apply lookup_update_eq|rewrite Edata; discriminate].
       * intros i Hi' Hne. apply Hstab. intros m Hm. apply (Hownex i m Hi' Hm).
       * intros j a b Hj Ha Hjb. inversion Ha; subst a. intros <-. apply (Hownex j n (Hownin j n Hjb) Hjb). exact Hfresh.
       * intros b Hbs. rewrite (HB2 b Hbs). apply Hb. exact Hbs.
@@ -420,11 +433,11 @@ Proof.
     set (g := update f (x_tmp n) (File (ws_data x))).
     assert (forall l, l <> x_tmp n -> lookup g l = lookup f l) as Hfr by (intros l H; apply lookup_update_neq; congruence).
     apply (Hre (B0' x n) g done (Some n)); try assumption; try reflexivity.
-    + rewrite <- Efl. apply W3. apply lookup_update_eq.
+    + rewrite <- Efl. apply W3; [exact Hw|apply lookup_update_eq].
     + intros i Hi' Hnei. apply (stable_agree [x_tmp n]); [apply agree_update| | | |].
       * intros p Hp Hnp [E|[]]. exact (not_dir_of_file f _ _ Hl p Hp Hnp (eq_sym E)).
       * intros b Hbs [E|[]]. exfalso. exact (tmp_ne_bucket n b Hbs E).
-      * intros [E|[]] _. exfalso. exact (tmp_ne_cp n _ E).
+      * intros _ [E|[]] _. exfalso. exact (tmp_ne_cp n _ E).
       * intros m Hm. split; [|apply (Hownex i m Hi' Hm)]. intros [E|[]]. inversion E as [E']. subst m.
         exact (Hdist i i0 n n Hnei Hm (eq_sym Eown) eq_refl).
     + intros j a b Hj Ha Hjb. inversion Ha; subst a. exact (fun E => Hdist i0 j n b (fun e => Hj (eq_sym e)) (eq_sym Eown) Hjb E).
@@ -438,7 +451,7 @@ Proof.
     rewrite (Hk _), Hr. change (nxt (B0' x n) ROk) with (B1 x n).
     set (g := snd (exec (MkdirAll (parent (x_cp x))) f)) in *.
     apply (Hre (B1 x n) g done (Some n)); try assumption; try reflexivity.
-    + rewrite <- Efl. apply W4; [rewrite Hfr by apply tmp_loc_not_content; exact Hl|exact Hdir].
+    + rewrite <- Efl. apply W4; [exact Hw|rewrite Hfr by apply tmp_loc_not_content; exact Hl|exact Hdir].
     + intros i Hi' Hnei. apply (stable_agree []); [exact Hag| | | |]; try (intros; contradiction).
       * intros p _ _ [].
       * intros m Hm. split; [intros []|apply (Hownex i m Hi' Hm)].
@@ -451,18 +464,18 @@ Proof.
     assert (lookup f (InCache (x_cp x)) <> Some Dir) as Hnd5.
     { intros E. unfold x_cp, cpath in E. apply (proj2 (Hc _ _ E) eq_refl). reflexivity. }
     assert (parent_ok f (InCache (x_cp x)) = true) as Hpok by exact Hd.
-    rewrite (Hk _), (exec_rename f _ _ _ Hl Hpok Hnd5). cbn [fst snd]. rewrite B1_next.
+    rewrite (Hk _), (exec_rename f _ _ _ Hl Hpok Hnd5). cbn [fst snd]. rewrite (B1_next x n Hw).
     set (g := update (remove f (x_tmp n)) (InCache (x_cp x)) (File (ws_data x))).
     assert (forall l, l <> x_tmp n -> l <> InCache (x_cp x) -> lookup g l = lookup f l) as Hfr.
     { intros l H1 H2. unfold g. rewrite lookup_update_neq by congruence. apply lookup_remove_neq. congruence. }
     apply (Hre (I0 x) g done None); try assumption; try reflexivity.
-    + rewrite <- Efl. apply W5. apply lookup_update_eq.
+    + rewrite <- Efl. apply W5. intros _. apply lookup_update_eq.
     + intros i Hi' Hnei. apply (stable_agree [x_tmp n; InCache (x_cp x)]); [apply agree_rename| | | |].
       * intros p Hp Hnp [E|[E|[]]]; [exact (not_dir_of_file f _ _ Hl p Hp Hnp (eq_sym E))|exact (not_dir_of_notdir f _ Hnd5 p Hp Hnp (eq_sym E))].
       * intros b Hbs [E|[E|[]]]; exfalso; [exact (tmp_ne_bucket n b Hbs E)|exact (cp_ne_bucket x b Hbs E)].
-      * intros _ Hy. unfold g.
+      * intros Hwy _ Hy. unfold g.
         destruct (loc_eq_dec (InCache (x_cp x)) (InCache (x_cp (nth i ws dw)))) as [E|N].
-        -- rewrite <- E, lookup_update_eq. assert (x_cp x = x_cp (nth i ws dw)) as E' by congruence. rewrite (Hcf x (nth i ws dw) Hxin (nth_In ws dw Hi') E'). reflexivity.
+        -- rewrite <- E, lookup_update_eq. assert (x_cp x = x_cp (nth i ws dw)) as E' by congruence. rewrite (Hcf x (nth i ws dw) Hxin (nth_In ws dw Hi') Hw Hwy E'). reflexivity.
         -- rewrite lookup_update_neq by exact N. rewrite lookup_remove_neq; [exact Hy|]. intros E. exact (tmp_ne_cp n _ E).
       * intros m Hm. split; [|apply (Hownex i m Hi' Hm)]. intros [E|[E|[]]].
         -- inversion E as [E']. subst m. exact (Hdist i i0 n n Hnei Hm (eq_sym Eown) eq_refl).
@@ -476,14 +489,14 @@ Proof.
     + intros b Hbs. rewrite (bucket_at_frame f g b Hbs); [apply Hb; exact Hbs|]. intros l Hli. apply Hfr; intros ->; [exact (tmp_loc_not_index n Hli)|exact (x_cp_not_index x Hli)].
   - (* S6: mkdir -p of the bucket's directory *)
     pose proof (hb_shape hash (x_hop x)) as Hbsx.
-    destruct (seq_prog_unfold (MkdirAll (parent (hb hash (x_hop x)))) (tl (hop_steps hash (x_hop x))) (x_sri x)) as [k1 [E Hk1]].
+    destruct (seq_prog_unfold (MkdirAll (parent (hb hash (x_hop x)))) (tl (hop_steps hash (x_hop x))) (x_res x)) as [k1 [E Hk1]].
     assert (Do c k = Do (MkdirAll (parent (hb hash (x_hop x)))) k1) as Ed by (rewrite <- E; symmetry; exact Ep0).
     remember (MkdirAll (parent (hb hash (x_hop x)))) as c1 eqn:Ec1. injection Ed as -> ->. subst c1.
     destruct (step_mkdir hash f _ Hi Hbsx) as [Herr [Hi' [Hdir [Hbk _]]]].
     rewrite (Hk1 _ Herr). set (g := snd (exec (MkdirAll (parent (hb hash (x_hop x)))) f)) in *.
     assert (forall l, ~ is_index l -> lookup g l = lookup f l) as Hfr by (intros l H; apply idx_mkdir_frame; assumption).
     apply (Hre (I1 x) g done None); try assumption; try reflexivity.
-    + rewrite <- Efl. apply W6; [rewrite Hfr by apply x_cp_not_index; exact Hcp|exact Hdir].
+    + rewrite <- Efl. apply W6; [intros Hwx; rewrite Hfr by apply x_cp_not_index; exact (Hcp Hwx)|exact Hdir].
     + intros i Hi'0 Hnei. apply (stable_agree []); [apply agree_exec_mkdir| | | |]; try (intros; contradiction).
       * intros p _ _ [].
       * intros m Hm. split; [intros []|apply (Hownex i m Hi'0 Hm)].
@@ -493,14 +506,14 @@ Proof.
     + intros b Hbs. rewrite (Hbk b Hbs). apply Hb. exact Hbs.
   - (* S7: open(O_CREAT|O_APPEND) of the bucket *)
     pose proof (hb_shape hash (x_hop x)) as Hbsx.
-    destruct (seq_prog_unfold (CreateIfMissing (InCache (hb hash (x_hop x)))) (tl (tl (hop_steps hash (x_hop x)))) (x_sri x)) as [k1 [E Hk1]].
+    destruct (seq_prog_unfold (CreateIfMissing (InCache (hb hash (x_hop x)))) (tl (tl (hop_steps hash (x_hop x)))) (x_res x)) as [k1 [E Hk1]].
     assert (Do c k = Do (CreateIfMissing (InCache (hb hash (x_hop x)))) k1) as Ed by (rewrite <- E; symmetry; exact Ep0).
     remember (CreateIfMissing (InCache (hb hash (x_hop x)))) as c1 eqn:Ec1. injection Ed as -> ->. subst c1.
     destruct (step_create hash f _ Hi Hbsx Hd) as [Herr [Hi' [[d Hdd] [Hbk _]]]].
     rewrite (Hk1 _ Herr). set (g := snd (exec (CreateIfMissing (InCache (hb hash (x_hop x)))) f)) in *.
     assert (forall l, ~ is_index l -> lookup g l = lookup f l) as Hfr by (intros l H; apply idx_create_frame; assumption).
     apply (Hre (I2 x) g done None); try assumption; try reflexivity.
-    + rewrite <- Efl. apply (W7 x g d); [rewrite Hfr by apply x_cp_not_index; exact Hcp|exact Hdd].
+    + rewrite <- Efl. apply (W7 x g d); [intros Hwx; rewrite Hfr by apply x_cp_not_index; exact (Hcp Hwx)|exact Hdd].
     + intros i Hi'0 Hnei. apply (stable_agree []); [apply agree_exec_create| | | |]; try (intros; contradiction).
       * intros p _ _ [].
       * intros m Hm. split; [intros []|apply (Hownex i m Hi'0 Hm)].
@@ -510,7 +523,7 @@ Proof.
     + intros b Hbs. rewrite (Hbk b Hbs). apply Hb. exact Hbs.
   - (* S8: the append — the writer takes its place in the serial order *)
     pose proof (hb_shape hash (x_hop x)) as Hbsx.
-    destruct (seq_prog_unfold (Append (InCache (hb hash (x_hop x))) (record_bytes hash (hop_rec (x_hop x)))) [] (x_sri x)) as [k1 [E Hk1]].
+    destruct (seq_prog_unfold (Append (InCache (hb hash (x_hop x))) (record_bytes hash (hop_rec (x_hop x)))) [] (x_res x)) as [k1 [E Hk1]].
     assert (Do c k = Do (Append (InCache (hb hash (x_hop x))) (record_bytes hash (hop_rec (x_hop x)))) k1) as Ed by (rewrite <- E; symmetry; exact Ep0).
     remember (Append (InCache (hb hash (x_hop x))) (record_bytes hash (hop_rec (x_hop x)))) as c1 eqn:Ec1. injection Ed as -> ->. subst c1.
     assert (wf_rec hash (hop_rec (x_hop x))) as Hwfx by (rewrite Forall_forall in Hwf; exact (Hwf x Hxin)).
@@ -518,16 +531,16 @@ Proof.
     rewrite (Hk1 _ Herr). set (g := snd (exec (Append (InCache (hb hash (x_hop x))) (record_bytes hash (hop_rec (x_hop x)))) f)) in *.
     assert (forall l, ~ is_index l -> lookup g l = lookup f l) as Hfr by (intros l H; apply idx_append_frame; assumption).
     assert (~ In i0 done) as Hnotin by (intro Hin; apply member_spec in Hin; congruence).
-    apply (Hre (Ret (Ok (x_sri x))) g (done ++ [i0]) None); try assumption.
+    apply (Hre (Ret (Ok (x_res x))) g (done ++ [i0]) None); try assumption.
     + apply NoDup_snoc; assumption.
     + intros i Hin. apply in_app_or in Hin as [Hin|[<-|[]]]; [apply Hlt; exact Hin|exact Hi0].
     + intros i Hnei. apply member_snoc_other. exact Hnei.
     + assert (member i0 (done ++ [i0]) = true) as -> by (apply member_spec; apply in_or_app; right; left; reflexivity).
-      apply W8. rewrite Hfr by apply x_cp_not_index. exact Hcp.
+      apply W8. intros Hwx. rewrite Hfr by apply x_cp_not_index. exact (Hcp Hwx).
     + intros i Hi'0 Hnei. apply (stable_agree [InCache (hb hash (x_hop x))]); [apply agree_exec_append| | | |].
       * intros p Hp Hnp [Eq0|[]]. exact (not_dir_of_file f _ _ Hd p Hp Hnp (eq_sym Eq0)).
       * intros b Hbs [Eq0|[]]. inversion Eq0; subst b. unfold g, exec. rewrite Hd. cbn [snd]. rewrite lookup_update_eq. eauto.
-      * intros [Eq0|[]] _. exfalso. exact (cp_ne_bucket _ _ Hbsx (eq_sym Eq0)).
+      * intros _ [Eq0|[]] _. exfalso. exact (cp_ne_bucket _ _ Hbsx (eq_sym Eq0)).
       * intros m Hm. split; [|apply (Hownex i m Hi'0 Hm)]. intros [Eq0|[]]. exact (tmp_ne_bucket m _ Hbsx (eq_sym Eq0)).
     + intros j a b _ H. discriminate.
     + apply (ContentShape_frame f); [exact Hc|]. intros l Hlc. apply Hfr. intro. eapply index_not_content; eauto.
@@ -548,9 +561,9 @@ Lemma head_ret_none {A} (p : prog A) r c : p = Ret r -> head p = Some c -> False
 Proof. intros -> H. discriminate. Qed.
 
 (* a finished thread is in the last stage *)
-Lemma wst_ret x f r fl own : wst x f (Ret r) fl own -> r = Ok (x_sri x) /\ fl = true /\ lookup f (InCache (x_cp x)) = Some (File (ws_data x)).
+Lemma wst_ret x f r fl own : wst x f (Ret r) fl own -> r = Ok (x_res x) /\ fl = true /\ content_fact x f.
 Proof.
-  intros H. remember (Ret r) as p eqn:Ep. destruct H as [|Hd|n Hl Hne|n Hl|n Hl Hd|Hcp|Hcp Hd|d Hcp Hd|Hcp].
+  intros H. remember (Ret r) as p eqn:Ep. destruct H as [Hw|Hw Hd|n Hw Hl Hne|n Hw Hl|n Hw Hl Hd|Hcp|Hcp Hd|d Hcp Hd|Hcp].
   - exfalso. exact (head_ret_none _ _ _ Ep (A0_head x)).
   - exfalso. exact (head_ret_none _ _ _ Ep (A1_head x)).
   - exfalso. exact (head_ret_none _ _ _ Ep (proj1 (A2_data x n Hne))).
@@ -566,8 +579,8 @@ Qed.
 Theorem conc_writes_serializable ws f0 pl' f' rs :
   CacheInv f0 -> coll_free ws -> Forall (fun x => wf_rec hash (hop_rec (x_hop x))) ws ->
   preach (map wprog ws, f0) (pl', f') -> results pl' = Some rs ->
-  rs = map (fun x => Ok (x_sri x)) ws /\
-  (forall x, In x ws -> lookup f' (InCache (x_cp x)) = Some (File (ws_data x))) /\
+  rs = map (fun x => Ok (x_res x)) ws /\
+  (forall x, In x ws -> ws_rm x = false -> lookup f' (InCache (x_cp x)) = Some (File (ws_data x))) /\
   CacheInv f' /\
   exists perm, Permutation perm ws /\
     (forall b, bshape b -> bucket_at f' b = bucket_at (fold_left (exec_hop hash) (map x_hop perm) f0) b) /\
@@ -577,16 +590,15 @@ Proof.
   destruct (PInvW_reach ws f0 _ _ Hcf Hwf (PInvW_init ws f0 Hinv0) Hr) as [done [owns [Hnd [Hlt [Hlen [Hlo [Hst [Hdist [Hi [Hc [Ht Hb]]]]]]]]]]].
   pose proof (results_some_ret pl' rs Hres) as Epl.
   assert (forall i, (i < List.length ws)%nat ->
-            nth i rs Stuck = Ok (x_sri (nth i ws dw)) /\ In i done /\
-            lookup f' (InCache (x_cp (nth i ws dw))) = Some (File (ws_data (nth i ws dw)))) as Hall.
+            nth i rs Stuck = Ok (x_res (nth i ws dw)) /\ In i done /\ content_fact (nth i ws dw) f') as Hall.
   { intros i Hi'. pose proof (Hst i Hi') as Hs. rewrite Epl in Hs. rewrite (map_nth (@Ret (res integrity)) rs Stuck i) in Hs.
     destruct (wst_ret _ _ _ _ _ Hs) as [E1 [E2 E3]]. split; [exact E1|]. split; [apply member_spec; exact E2|exact E3]. }
   assert (List.length rs = List.length ws) as Hlr by (rewrite <- Hlen, Epl, map_length; reflexivity).
   split.
-  { apply (nth_ext _ _ Stuck (Ok (x_sri dw))); [rewrite map_length; exact Hlr|].
-    intros n Hn. rewrite Hlr in Hn. rewrite (proj1 (Hall n Hn)). symmetry. apply (map_nth (fun x => Ok (x_sri x)) ws dw n). }
+  { apply (nth_ext _ _ Stuck (Ok (x_res dw))); [rewrite map_length; exact Hlr|].
+    intros n Hn. rewrite Hlr in Hn. rewrite (proj1 (Hall n Hn)). symmetry. apply (map_nth (fun x => Ok (x_res x)) ws dw n). }
   split.
-  { intros x Hx. destruct (In_nth ws x dw Hx) as [i [Hi' <-]]. exact (proj2 (proj2 (Hall i Hi'))). }
+  { intros x Hx Hwx. destruct (In_nth ws x dw Hx) as [i [Hi' <-]]. exact (proj2 (proj2 (Hall i Hi')) Hwx). }
   split; [split; [exact Hi|split; [exact Hc|exact Ht]]|].
   assert (Permutation done (seq 0 (List.length ws))) as Hperm.
   { apply NoDup_Permutation; [exact Hnd|apply seq_NoDup|]. intros y. rewrite in_seq. split; [intros H; split; [lia|apply Hlt; exact H]|intros [_ H]; apply (Hall y H)]. }
@@ -600,7 +612,7 @@ Proof.
   { apply Forall_forall. intros h Hh. apply in_map_iff in Hh as [y [<- Hy]].
     assert (In y ws) as Hyw by (apply (Permutation_in _ Hp); exact Hy).
     rewrite Forall_forall in Hwf. cbn [wf_hop x_hop]. split; [exact (Hwf y Hyw)|].
-    intros i Ei. cbn [x_o' o_sri] in Ei. inversion Ei; subst i. apply parse_entry_computed. exact HL. }
+    intros i Ei. destruct (ws_rm y); [discriminate|]. cbn [x_o' o_sri] in Ei. inversion Ei; subst i. apply parse_entry_computed. exact HL. }
   exists perm. split; [exact Hp|].
   assert (forall b, bshape b -> bucket_at f' b = bucket_at (fold_left (exec_hop hash) (map x_hop perm) f0) b) as Hbk.
   { intros b Hbs. rewrite (Hb b Hbs), Ehops. symmetry. apply bucket_language; [exact (proj1 Hinv0)|exact Hwf'|exact Hbs]. }
